@@ -143,6 +143,28 @@ def h_shape_center_extent(m):
     m.require('== is reflexive', a == a)
 
 
+def h_corner_history(m):
+    """the derived quantities follow the corners: read them, move every corner (the corners are public attributes), read them again"""
+    import copy
+    _shims(m)
+    a = _box(m, 'a')
+    _ = (a.shape, a.center, a.extent)                 # a first read, which a caching implementation would remember
+    c = copy.copy(a)
+    kx0, kx1, ky0, ky1 = m.integer('kx0', lo=0, hi=3), m.integer('kx1', lo=0, hi=3), m.integer('ky0', lo=0, hi=3), m.integer('ky1', lo=0, hi=3)
+    for b in (a, c):
+        b.ixmin -= kx0
+        b.ixmax += kx1
+        b.iymin -= ky0
+        b.iymax += ky1
+        ny, nx = b.shape
+        m.require('after moving the corners: shape follows', And(ny == b.iymax - b.iymin, nx == b.ixmax - b.ixmin))
+        cy, cx = b.center
+        m.require('after moving the corners: center follows', And(2 * cy == b.iymin + b.iymax - 1, 2 * cx == b.ixmin + b.ixmax - 1))
+        e = b.extent
+        m.require('after moving the corners: extent follows',
+                  And(e[0] == b.ixmin - 0.5, e[1] == b.ixmax - 0.5, e[2] == b.iymin - 0.5, e[3] == b.iymax - 0.5))
+
+
 def h_eq(m):
     _shims(m)
     a, b = _box(m, 'a'), _box(m, 'b')
@@ -226,7 +248,7 @@ def h_overlap_bad_shape(m):
 
 def harnesses(tier):
     return [('union', h_union), ('union-assoc', h_union_assoc), ('intersection', h_intersection),
-            ('intersection-assoc', h_intersection_assoc), ('shape-center-extent', h_shape_center_extent),
+            ('intersection-assoc', h_intersection_assoc), ('shape-center-extent', h_shape_center_extent), ('corner-history', h_corner_history),
             ('eq', h_eq), ('init-validation', h_init_validation), ('from_float', h_from_float),
             ('overlap-slices', h_overlap), ('overlap-bad-shape', h_overlap_bad_shape)]
 
